@@ -1,4 +1,5 @@
 import VsbModel.Lemmas.Split
+import VsbModel.Lemmas.Budget
 
 /-!
 # C17 — ciphertext is split into request bodies without loss, overlap or oversize
@@ -141,5 +142,48 @@ example : (bodiesOf (splitter (some 3) none [Msg.payload [1,2], Msg.payload [3,4
 
 example : (splitter (some 3) none [Msg.payload [1,2], Msg.payload [3,4,5,6], Msg.eof 9]).1
     = [.stream 0, .chunk [1,2], .chunk [3], .close, .stream 3, .chunk [4,5,6], .close, .eof 6 9] := by decide
+
+
+/-! ### A receiver that stops early -/
+
+theorem firstTerm_not_payload (msgs : List (Msg α)) (m : Msg α) (rest : List (Msg α))
+    (h : firstTerm msgs = some (m, rest)) : (∃ c, m = .eof c) ∨ (∃ e, m = .err e) := by
+  induction msgs with
+  | nil => cases h
+  | cons x xs ih =>
+    cases x with
+    | payload d => exact ih (by simpa [firstTerm] using h)
+    | eof c => simp only [firstTerm, Option.some.injEq, Prod.mk.injEq] at h; exact Or.inl ⟨c, h.1.symm⟩
+    | err e => simp only [firstTerm, Option.some.injEq, Prod.mk.injEq] at h; exact Or.inr ⟨e, h.1.symm⟩
+
+/-- With a consumer that keeps reading, the splitter never fails on a send. -/
+theorem unlimited_never_sendClosed (max : Option Nat) (hmax : MaxOk max) (msgs : List (Msg α)) :
+    (splitter max none msgs).2 ≠ .sendClosed := by
+  have r := run_spec max hmax msgs {} [] (inv_init max)
+  unfold splitter
+  cases hft : firstTerm msgs with
+  | none => rw [(r.hangup hft).1]; intro h; cases h
+  | some mr =>
+    obtain ⟨m, rest⟩ := mr
+    rcases firstTerm_not_payload msgs m rest hft with ⟨c, rfl⟩ | ⟨e, rfl⟩
+    · rw [(r.eof c rest hft).2.2.2.2]; split <;> (intro h; cases h)
+    · rw [(r.err e rest hft).2.2.2.2]; split <;> (intro h; cases h)
+
+/-- **abandon_fails.** A consumer that accepts only `n` sends (stream announcements, chunks, the terminal
+message) and then goes away: if the whole conversation needs at most `n` sends nothing changes; otherwise
+exactly the first `n` sends are made, the next one fails, and the splitter returns the error "the receiver
+has been closed" at once instead of blocking — for every message list and every limit. -/
+theorem abandon_fails (max : Option Nat) (hmax : MaxOk max) (msgs : List (Msg α)) (n : Nat) :
+    (nSends (splitter max none msgs).1 ≤ n → splitter max (some n) msgs = splitter max none msgs) ∧
+    (n < nSends (splitter max none msgs).1 →
+      (splitter max (some n) msgs).2 = .sendClosed ∧ nSends (splitter max (some n) msgs).1 = n) := by
+  have h := run_budget max msgs {} n [] (unlimited_never_sendClosed max hmax msgs)
+  unfold splitter
+  refine ⟨fun hle => h.2.1 (by simpa using hle), fun hlt => ?_⟩
+  have := h.2.2 (by simpa using hlt)
+  exact ⟨this.1, (by simpa using this.2)⟩
+
+example : splitter (some 2) (some 3) [Msg.payload [1,2,3], Msg.eof 7] =
+    ([Ev.stream 0, Ev.chunk [1,2], Ev.close, Ev.stream 2], .sendClosed) := by decide
 
 end Vsb.Split
